@@ -93,6 +93,9 @@ def run(tier):
         chk.violation("[%s backend] event %d outside the C14 Contract: %s" % (b["backend"], b["index"], b["event"]),
                       {"backend": b["backend"], "walk": b["walk"], "event": b["event"]})
     n_exec = sum(1 for e in events + nevents if e["e"] == "reset")
+    # the same refusals in the library's DEFAULT failure configuration (no exceptions, no custom handler): the process ends
+    import abortcommon
+    abortcommon.judge(chk, wd, "C14")
     chk.count(evaluations=len(events) + len(nevents), distinct=n_edges, traces=n_exec)
     for ev in events[3:6] + [e for e in events if e["e"] == "xlate"][:2]:
         chk.sample(ev)
